@@ -752,6 +752,10 @@ class Saver:
 
                 for chunk in chunks:
                     new_f = self.save(chunk=chunk, chunk_i=chunk_i, executor=executor)
+                    for f in pending:
+                        if f.done():
+                            # Raise the exception of a chunk that failed to save
+                            f.result()
                     pending = [f for f in pending if not f.done()]
                     if new_f is not None:
                         pending += [new_f]
@@ -772,7 +776,12 @@ class Saver:
 
         finally:
             if not self.closed:
-                self.close(wait_for=pending)
+                try:
+                    self.close(wait_for=pending)
+                except Exception as e:
+                    # log exception for the final check
+                    self.got_exception = e
+                    raise
 
     def save(self, chunk: strax.Chunk, chunk_i: int, executor=None):
         """Save a chunk, returning future to wait on or None."""
@@ -810,16 +819,24 @@ class Saver:
         if self.closed:
             raise RuntimeError(f"{self.md} saver already closed")
 
+        failed = None
         if wait_for:
             done, not_done = wait(wait_for, timeout=self.timeout)
             if len(not_done):
                 raise RuntimeError(f"{len(not_done)} futures of {self.md} did notcomplete in time!")
+            for f in done:
+                if not f.cancelled() and f.exception() is not None:
+                    failed = f.exception()
+                    break
 
         self.closed = True
 
         exc_info = strax.formatted_exception()
         if exc_info:
             self.md["exception"] = exc_info
+        elif failed is not None:
+            # A chunk failed to save in the executor: the data is incomplete
+            self.md["exception"] = repr(failed)
 
         if self.md["chunks"]:
             # Update to precise start and end values
@@ -831,6 +848,9 @@ class Saver:
         self.md["writing_ended"] = time.time()
 
         self._close()
+
+        if failed is not None and not exc_info:
+            raise failed
 
     ##
     # Abstract methods (to override in child)
